@@ -51,6 +51,7 @@ func init() {
 
 type topField struct {
 	name     string
+	alias    string
 	position *ast.Position
 }
 
@@ -65,6 +66,7 @@ func retrieveTopFieldNames(selectionSet ast.SelectionSet) []*topField {
 			case *ast.Field:
 				fields = append(fields, &topField{
 					name:     selection.Name,
+					alias:    selection.Alias,
 					position: selection.GetPosition(),
 				})
 			case *ast.InlineFragment:
@@ -85,11 +87,12 @@ func retrieveTopFieldNames(selectionSet ast.SelectionSet) []*topField {
 
 	seen := make(map[string]bool, len(fields))
 	uniquedFields := make([]*topField, 0, len(fields))
+	// top level fields are counted by response key: two aliases of one field are two fields
 	for _, field := range fields {
-		if !seen[field.name] {
+		if !seen[field.alias] {
 			uniquedFields = append(uniquedFields, field)
 		}
-		seen[field.name] = true
+		seen[field.alias] = true
 	}
 	return uniquedFields
 }
